@@ -637,7 +637,8 @@ class Driver:
                 rj = self.real_of(sj)
                 if rj is not None:
                     refused.append(rj["id"])
-        sb.set_refuse([str(j + FIRST_ID - 1) for j in refused])
+        # (a third of the refusals are silent ones: non-zero exit, the complaint on stdout, nothing on stderr)
+        sb.set_refuse([str(j + FIRST_ID - 1) for j in refused], silent=self.backend in ("sge", "lsf") and (self.variant + len(self.events)) % 3 == 0)
         r, calls, obs = self.observe_cmd(args + self.names(h["sel"]) + nomatch, input=inp)
         sb.set_refuse([])
         reqs = []
